@@ -15,9 +15,9 @@ THEOREMS = ['base36_total', 'base36_non_digit_is_error', 'parse_step_safe', 'tok
             'line_canvas_generic', 'fill_x_generic', 'fill_y_generic', 'line_safe', 'rectangle_safe', 'draw_poly_safe', 'draw_poly_line_safe', 'line_cost',
             'tokenizer_vec_range', 'kernel2_safe', 'kernel2_seq_safe', 'kernel2_modelled', 'rip_stream_safe2',
             # extension 2 / 3: IGS tokenizer, IGS pixel kernel
-            'igs_tokenizer_safe', 'igs_next_action_safe', 'igs_stream_safe', 'igs_loop_step_safe', 'igs_loop_progress', 'igs_loop_step0_stuck', 'igs_executor_invariant',
+            'igs_tokenizer_safe', 'igs_next_action_safe', 'igs_stream_safe', 'igs_loop_step_safe', 'igs_loop_progress', 'igs_loop_terminates', 'igs_loop_step0_stuck_before_fix', 'igs_executor_invariant',
             'igs_set_pixel_safe', 'igs_get_pixel_safe', 'igs_fill_rect_safe', 'igs_fill_rect_cost', 'igs_picture_safe', 'igs_kernel_safe', 'igs_stream_kernel_safe',
-            'igs_draw_line_total', 'igs_draw_line_stall_witness', 'igs_kernel2_safe', 'igs_stream_kernel2_safe']
+            'igs_clip_line_safe', 'igs_draw_line_total', 'igs_draw_line_before_fix', 'igs_draw_line_before_fix_stall', 'igs_kernel2_safe', 'igs_stream_kernel2_safe']
 SWEEP_LEMMAS = ['RipTokProofs.tables_ok (all 52 generated parse tables: every field index inside the struct, `_` arm is text or error, a continuing arm of a fixed-arity table has a successor, no empty fixed-arity table)',
                 'RipStreamProofs.kernel_weights_ok (no field of a kernel command is fed more than two base-36 digits)',
                 'RipTokProofs.lf_not_command (line feed is not a command letter in the three generated dispatch tables)',
@@ -32,18 +32,20 @@ UNMODELLED = ['RIP primitives beyond put_pixel / get_pixel / bar / bar_rect / fi
               'Command::run of FontStyle, Mouse, Button, ButtonStyle, LoadIcon, FileQuery, GetImage, PutImage, CopyRegion, Circle, Oval*, Arc*, PieSlice*, Bezier, FilledPolygon, Fill, Text, TextXY: reaching one is the explicit outcome OUnmodelled2',
               'the wrapped ansi::Parser of both parsers (a parameter of the stream theorems: any behaviour), TerminalState::set_text_window (terminal margins), Buffer::clear_screen',
               'IGS: every DrawExecutor command except ColorSet, FilledRectangle, AttributeForFills, ScreenClear, SetResolution, HollowSet, DrawingMode, SetPenColor, DrawLine, LineDrawTo, LineMarkerTypes (with the right parameter count they are the explicit outcome XUnmodelled; the tokenizer theorems hold for EVERY executor); the unchecked `x += p.len() as i32` of the loop parameter count (needs 2^31 parameters)',
-              'running time: cost theorems only for Bgi::line (put_pixel calls), IGS fill_rect (fill_pixel calls <= width x height), IGS draw_line (iterations between max(dx,dy)+1 and dx+dy+1: NOT bounded by the canvas) and IGS loops (steps <= |to - from| when step >= 1); otherwise the search stage enforces 5 s of CPU per command under the worker']
+              'running time: cost theorems only for Bgi::line (put_pixel calls), IGS fill_rect (fill_pixel calls <= width x height), IGS draw_line (at most width + height - 1 loop iterations since the line is clipped first) and IGS loops (every loop ends after at most |to - from| steps); otherwise the search stage enforces 5 s of CPU per command under the worker',
+              'IGS clip_line is proved safe and on-screen (no i128 overflow, no division by zero, both end points inside the screen); that the clipped line is the visible part of the original line (up to rounding) is NOT proved — the search stage compares it with an independent rational-arithmetic clipper']
 ASSUMPTIONS = ['streams shorter than 2^31 characters: parameter_state (i32) overflows in the dev profile after 2^31-1 parameter characters of a single command (theorem pstate_overflow_witness); not reproducible under the 1 GiB worker limit',
                'buf.terminal_state.cleared_screen is never set by the engine (the only assignment in the crate is the reset inside rip print_char), so the graph_defaults prologue of print_char is not modelled',
                'Rust i32 arithmetic panics on overflow (dev profile); `as u8` / `as usize` / `as u32` truncate or reinterpret as written in the model',
-               'IGS: fewer than 2^31 loop parameters (the parameter-count fold `x += p.len() as i32` is modelled unbounded); the loop-step safety theorem assumes loop header and parameter values of at most 10^9 (beyond: known finding igs-panic:next_step)']
+               'IGS: fewer than 2^31 loop parameters (the parameter-count fold `x += p.len() as i32` is modelled unbounded); i128 arithmetic of clip_line is modelled with explicit overflow sites that are proved unreachable for i32 arguments']
 RULE = ('search: every RIP command letter of the three dispatch tables (read from rip/mod.rs) x every parameter string over {0,1,Z} up to length 4 (quick) / 6 (thorough) and the uniform strings up to '
         'length 24, terminated by | and by newline, on a fresh parser and on two prelude states; non-base-36 characters in six positions of every command; ~280 hand-picked special streams '
         '(continuation lines, text variables, unknown commands, plain text, buttons, icons, images, fills); every IGS command letter (igs/cmd.rs) x 0..=12 parameters from '
         '{-50,-1,0,1,7,99,320,640,99999} (uniform + seeded mixed lists), loops, chained commands, ~170 special streams; seeded random sequences of 1..=20 commands on the state left by their predecessors. '
         'correspondence: seeded streams of 1..=20 modelled commands (truncated / over-long / non-digit / continuation-line parameters, line ends, lead-in variants). '
         'extension: streams of Line / Rectangle / Polygon / PolyLine / LineStyle commands on a small viewport (ripobs2), Bgi::line / rectangle / draw_poly / draw_poly_line called directly with arbitrary i32 arguments (ripline), '
-        'IGS streams over the modelled executor arms with loops, wrong parameter counts, separators and junk (igsobs); search: + nine loop-arithmetic streams and ten loops of known length drained by igsdrain. '
+        'IGS streams over the modelled executor arms with loops (step 0, step i32::MAX, parameter values at the i32 limits), far lines, wrong parameter counts, separators and junk (igsobs); search: + regression streams of every repaired finding, ten loops of known length drained by igsdrain, '
+        'lines with end points from the whole i32 range against an exact-fraction Liang-Barsky clipper (igspix), the repaired IGS primitives with i32-extreme parameters through loop parameters. '
         'non-trivial = stream longer than 3 characters answered without failure; distinct = distinct streams')
 
 # ---------------------------------------------------------------------------------------------------------------
@@ -103,6 +105,18 @@ def enclosing_fn(repo, loc):
                     if im: return '%s::%s' % (im.group(2), mm.group(1))
             return mm.group(1)
     return os.path.basename(path)
+
+def panic_sig(repo, lang, loc):
+    """signature of a panic: <lang>-panic:<enclosing fn>, with the suffix :todo when the panicking line is a `todo!()` /
+    `unimplemented!()` (a missing feature is another class than an index / arithmetic panic of the same function)"""
+    fn = enclosing_fn(repo, loc)
+    m = re.match(r'(.*):(\d+)$', loc or '')
+    if m:
+        rp = os.path.realpath(m.group(1)) if os.path.isabs(m.group(1)) else os.path.realpath(os.path.join(repo, m.group(1)))
+        lines = _fn_cache.get(rp) or []
+        k = int(m.group(2)) - 1
+        if 0 <= k < len(lines) and re.search(r'\b(todo|unimplemented)!\s*\(', lines[k]): return '%s-panic:%s:todo' % (lang, fn)
+    return '%s-panic:%s' % (lang, fn)
 
 def hx(s):
     return (s.encode('latin-1').hex()) or '-'
@@ -388,7 +402,7 @@ def classify(ctx, lang, ids, stream, r, W=None):
         return None
     if cls == 'panic':
         fn = enclosing_fn(ctx.repo, r[1])
-        return {'signature': '%s-panic:%s' % (lang, fn), 'input': '%s %s' % (lang, hx(stream)), 'impl': list(r), 'detail': '%r panics at %s (fn %s)' % (stream, r[1], fn)}
+        return {'signature': panic_sig(ctx.repo, lang, r[1]), 'input': '%s %s' % (lang, hx(stream)), 'impl': list(r), 'detail': '%r panics at %s (fn %s)' % (stream, r[1], fn)}
     if cls == 'err':
         return {'signature': '%s-harness-error' % lang, 'input': '%s %s' % (lang, hx(stream)), 'impl': list(r), 'detail': stream}
     # timeout / oom / abort / stackoverflow / killed: attributed to a command by `attribute`
@@ -434,7 +448,7 @@ def attribute(ctx, fails):
                 f['drop'] = True; continue
             k = slow[0]; cls = 'timeout'
         elif r[0] == 'panic':      # died differently on the second run: report what it is now
-            f['signature'] = '%s-panic:%s' % (lang, enclosing_fn(ctx.repo, r[1])); continue
+            f['signature'] = panic_sig(ctx.repo, lang, r[1]); continue
         else:
             m = re.search(r'c20-progress (\d+)', r[1] or '')
             cls = r[0]
@@ -471,8 +485,110 @@ def loop_oracle(ctx):
             fails.append({'signature': 'igs-%s:&' % r[0], 'input': 'igs ' + hx(s), 'impl': list(r), 'detail': '%r: %s' % (s, r[1])})
     return cases, fails
 
+# ---- IGS draw_line against an independent clipper (exact rational arithmetic): the line is clipped before it is drawn, so the
+# pixels it changes must be the visible part of the ideal line
+LINE_VALS = [-2147483648, -2147483647, -1000000000, -99999, -32769, -641, -321, -201, -2, -1, 0, 1, 2, 5, 100, 160, 198, 199, 200, 201, 318, 319, 320, 321, 639, 640,
+             32767, 99999, 1000000000, 2147483599, 2147483646, 2147483647]
+
+def line_stream(c):
+    x0, y0, x1, y1 = c
+    if min(c) >= 0 and max(c) <= 2147483599: return 'G#L %d,%d,%d,%d:' % c
+    return 'G#&0,1,1,0,L,4,%s:' % ','.join('+%d' % v for v in c)      # loop parameters carry a sign (x = 0 in the first step)
+
+def visible_interval(c, lo_x, hi_x, lo_y, hi_y):
+    """Liang-Barsky in exact fractions: the parameter interval [t0, t1] of the part of the segment inside the box, or None"""
+    from fractions import Fraction as F
+    x0, y0, x1, y1 = c
+    t0, t1 = F(0), F(1)
+    for p, q in ((-(x1 - x0), x0 - lo_x), (x1 - x0, hi_x - x0), (-(y1 - y0), y0 - lo_y), (y1 - y0, hi_y - y0)):
+        if p == 0:
+            if q < 0: return None
+        else:
+            t = F(q, p)
+            if p < 0: t0 = max(t0, t)
+            else: t1 = min(t1, t)
+    return (t0, t1) if t0 <= t1 else None
+
+def check_line(c, w, h, pix):
+    """-> None or a description of the disagreement; pix = offsets of the changed pixels"""
+    import math
+    x0, y0, x1, y1 = c
+    dx, dy = x1 - x0, y1 - y0
+    M = max(abs(dx), abs(dy))
+    pts = [(o % w, o // w) for o in pix]
+    for (px, py) in pts:
+        if not (min(x0, x1) <= px <= max(x0, x1) and min(y0, y1) <= py <= max(y0, y1)): return 'pixel (%d,%d) outside the bounding box of the line' % (px, py)
+        if abs(dx * (py - y0) - dy * (px - x0)) > 2 * M: return 'pixel (%d,%d) more than 2 pixels off the line' % (px, py)
+    big = visible_interval(c, -2, w + 1, -2, h + 1)
+    if big is None:
+        return 'nothing of the line comes within 2 pixels of the screen, but %d pixels changed' % len(pts) if pts else None
+    xmajor = abs(dx) >= abs(dy)
+    if len(pts) > (big[1] - big[0]) * M + 3: return '%d pixels changed, the visible part is %s pixels long' % (len(pts), float((big[1] - big[0]) * M))
+    small = visible_interval(c, 2, w - 3, 2, h - 3)
+    if small is not None and M > 0:
+        a = (x0 + small[0] * dx) if xmajor else (y0 + small[0] * dy)
+        b = (x0 + small[1] * dx) if xmajor else (y0 + small[1] * dy)
+        lo, hi = math.ceil(min(a, b)) + 1, math.floor(max(a, b)) - 1
+        have = set(p[0] if xmajor else p[1] for p in pts)
+        miss = [m for m in range(lo, hi + 1) if m not in have]
+        if miss: return 'no pixel at %s = %d (visible part %d..%d)' % ('x' if xmajor else 'y', miss[0], lo, hi)
+    return None
+
+def line_oracle(ctx, rng):
+    n = 4000 if ctx.thorough else 400      # not raised by escalation: on a tree without the clip every far line is a 5 s timeout
+    cs = [(0, 0, 4, 2), (0, 0, 1000000000, 0), (-10, -10, 700, 500), (2147483647, -2147483648, -2147483648, 2147483647), (-2147483648, -2147483648, 2147483647, 2147483647),
+          (319, 199, 319, 199), (320, 0, 320, 199), (-5, 100, 325, 100), (100, -5, 100, 205), (0, 199, 319, 0), (-1000000000, 100, 1000000000, 101), (5, -2147483648, 6, 2147483647)]
+    for _ in range(n):
+        r = rng.random()
+        v = (lambda: rng.choice(LINE_VALS)) if r < 0.3 else (lambda: rng.randint(-400, 720)) if r < 0.7 else (lambda: rng.choice(LINE_VALS) if rng.random() < 0.4 else rng.randint(-30, 350))
+        cs.append((v(), v(), v(), v()))
+    streams = [line_stream(c) for c in cs]
+    cases = ['igspix ' + hx(s) for s in streams]
+    res = ctx.impl(cases, per_case_timeout=5, jobs=8)
+    fails = []; drawn = 0
+    for c, s, r in zip(cs, streams, res):
+        if r[0] == 'ok':
+            w, h, cnt = r[1][:3]
+            bad = 'resolution changed' if cnt < 0 else check_line(c, w, h, r[1][3:])
+            if cnt > 0: drawn += 1
+            if bad: fails.append({'signature': 'igs-line-clip', 'input': 'igs ' + hx(s), 'impl': r[1][:12], 'detail': '%r: %s' % (s, bad)})
+        elif r[0] == 'panic':
+            fails.append({'signature': 'igs-panic:%s' % enclosing_fn(ctx.repo, r[1]), 'input': 'igs ' + hx(s), 'impl': list(r), 'detail': '%r panics at %s' % (s, r[1])})
+        else:
+            fails.append({'signature': 'igs-%s:L' % r[0], 'input': 'igs ' + hx(s), 'impl': list(r), 'detail': '%r: %s' % (s, r[1])})
+    return cases, fails, drawn
+
+# ---- the repaired IGS primitives with parameters from the whole i32 range (loop parameters carry a sign): no panic, no stall
+EXTREME = [-2147483648, -2147483647, -1000000000, -99999, -32769, -32768, -641, -1, 0, 1, 5, 100, 199, 200, 319, 320, 639, 640, 32767, 32768, 99999, 1000000000,
+           2147483599, 2147483646, 2147483647]
+def gen_extreme(rng):
+    lp = lambda c, vals: '&0,1,1,0,%s,%d,%s:' % (c, len(vals), ','.join('+%d' % v for v in vals))
+    v = lambda: rng.choice(EXTREME) if rng.random() < 0.7 else rng.randint(-700, 700)
+    c = rng.choice(['L', 'L', 'D', 'z', 'f', 'O', 'Q', 'G3', 'G2', 'B', 'P'])
+    pre = rng.choice(['', 'A 1,1,1:', 'T 2,%d,1:' % rng.randint(1, 7), 'R 1,0:', 'G 1,3,0,0,50,40:', 'G 1,3,10,10,300,190:A 2,3,1:'])
+    if c == 'L': cmd = lp('L', [v(), v(), v(), v()])
+    elif c == 'D': cmd = lp('D', [v(), v()]) + lp('D', [v(), v()])
+    elif c in 'zf':
+        k = rng.choice([1, 2, 3, 4]); cmd = lp(c, [k] + [v() for _ in range(2 * k)])
+    elif c == 'O': cmd = lp('O', [v(), v(), v()])
+    elif c == 'Q': cmd = lp('Q', [v(), v(), v(), v()])
+    elif c == 'G3': cmd = lp('G', [3, 3, v(), v(), v(), v(), v(), v()])
+    elif c == 'G2': cmd = lp('G', [2, 3, v(), v()])
+    elif c == 'B': cmd = lp('B', [v(), v(), v(), v(), rng.choice([0, 1])])
+    else: cmd = lp('P', [v(), v()])
+    return c[0], 'G#' + pre + cmd
+
 # regression inputs of the defects repaired by fix: commits (must stay clean)
-REGRESSIONS = ['!|w000000000!', '!|w00000000 0|', '!|w1000000000|', '!|w0010000000|', '!|1B' + 'Z' * 37 + '|', '!|Q1S|', '!|QZZ|', '!|a051S|', '!|a0Z1R|']
+IGS_REGRESSIONS = ['G#&0,3,0,0,L,4,0,0,1,1:', 'G#&5,0,0,0,C,2,2,3:', 'G#&100,200,2147483647,0,L,4,0,0,1,1:', 'G#&1,3,1,0,L,4,+2147483647,0,0,0:', 'G#&1,3,1,0,L,4,--2147483648,0,0,0:',
+                   'G#&1,3,1,0,L,4,!-2147483648,0,0,0:', 'G#&200,100,2147483647,0,L,4,0,0,1,1:', 'G#L 0,0,1000000000,0:', 'G#L 0,0,2147483599,2147483599:', 'G#D 1000000000,1000000000:D 0,0:',
+                   'G#T 2,7,1:L 0,0,50,50:', 'G#T 2,7,5:D 9,9:z 2,1,1,30,30:', 'G#L 2147483647,2147483648,99999999999,1:', 'G#A 1,1,1:B 0,0,1000000000,1000000000,1:',
+                   'G#O 0,0,99999:', 'G#Q1,99999,99999,1:', 'G#O 160,100,32767:', 'G#A 1,1,1:O 160,100,32767:', 'G#A 1,1,1:Q 160,100,32767,100:', 'G#Q 160,100,2000,3000:', 'G#O 100,100,4000:',
+                   'G#f 3,99999,0,0,99999,5,5:', 'G#f 3,2147483599,0,0,2147483599,5,5:', 'G#A 1,1,1:f 3,99999,0,0,99999,5,5:',
+                   'G#G 3,3,0,0,10,10,0,0:', 'G#G 1,3,0,0,50,40:G 3,3,10,10,99999,99999,100,100:', 'G#G 1,3,0,0,50,40:G 3,3,45,35,60,50,0,0:', 'G#G 2,3,10,10:']
+REGRESSIONS = ['!|v0A0A1E1E|F14140F|', '!|V234020A40HH0|v1100ZZZ0|F8359x3|', '!|F00009Q0F|', '!|FHS000F|', '!|v0000ZZZZ|FHS9Q0F|', '!|v0000ZZZZ|B0000ZZZZ|F05059Q01|',
+               '!|1B0A0A02ZZZZ0Z0Z0Z0Z0Z0Z0Z0Z0Z0Z0000000|1U0A0A1E1E1T00<>\xe9A<>x|', '!|1U0A0A1E1E1T00<>\xe9A<>x|', '!|1B0A0A02ZZZZ0Z0Z0Z0Z0Z0Z0Z0Z0Z0Z0000000|1U0A0A1E1E1T00<>\xe9\xe8A<>x|',
+               '!|1B0A0A02ZZZZ0Z0Z0Z0Z0Z0Z0Z0Z0Z0Z0000000|1U0A0A1E1E6H00<>\xe9\xe8A\xe9<>x|'] + \
+              ['!|w000000000!', '!|w00000000 0|', '!|w1000000000|', '!|w0010000000|', '!|1B' + 'Z' * 37 + '|', '!|Q1S|', '!|QZZ|', '!|a051S|', '!|a0Z1R|']
 
 def search(ctx, broken):
     tables = rip_tables(ctx.repo)
@@ -481,6 +597,7 @@ def search(ctx, broken):
     big = ctx.thorough or ctx.escalated
     streams = []          # (lang, ids, stream)
     for s in REGRESSIONS: streams.append(('rip', [], s))
+    for s in IGS_REGRESSIONS: streams.append(('igs', [], s))
     for b in broken:
         d = b.get('detail') or {}
         c = str(d.get('case', '')) if isinstance(d, dict) else ''
@@ -501,6 +618,8 @@ def search(ctx, broken):
         ids, s = gen_rip_seq(rng, tables); streams.append(('rip', ids, s))
     for _ in range(25000 if ctx.thorough else ctx.n(1500, 9000)):
         ids, s = gen_igs_seq(rng, igt); streams.append(('igs', ids, s))
+    for _ in range(3000 if ctx.thorough else 400):
+        i, s = gen_extreme(rng); streams.append(('igs', [i], s))
     cases = ['%s %s' % (l, hx(s)) for l, _, s in streams]
     res = ctx.impl(cases, per_case_timeout=5, mem_mb=1024, jobs=8)
     failures = []
@@ -512,11 +631,14 @@ def search(ctx, broken):
     attribute(ctx, failures)
     lcases, lfails = loop_oracle(ctx)
     cases += lcases; failures += lfails
+    ccases, cfails, cdrawn = line_oracle(ctx, rng)
+    cases += ccases; failures += cfails
     failures.sort(key=lambda f: len(str(f['input'])))
     sig = {}
     for f in failures: sig[f['signature']] = sig.get(f['signature'], 0) + 1
-    return {'cases': len(cases), 'failures': failures, 'distinct_nontrivial': len(nontriv), 'samples': [cases[len(REGRESSIONS) + 5], cases[n_exh + 1], cases[-1]],
-            'exhaustive_command_table_cases': n_exh, 'rip_commands': [len(t) for t in tables], 'igs_commands': len(igt), 'signatures': sig}
+    return {'cases': len(cases), 'failures': failures, 'distinct_nontrivial': len(nontriv), 'samples': [cases[len(REGRESSIONS) + len(IGS_REGRESSIONS) + 5], cases[n_exh + 1], cases[-1]],
+            'exhaustive_command_table_cases': n_exh, 'rip_commands': [len(t) for t in tables], 'igs_commands': len(igt), 'signatures': sig,
+            'line_clip_cases': len(ccases), 'line_clip_cases_drawing': cdrawn}
 
 # ---------------------------------------------------------------------------------------------------------------
 # stage C: modelled tokenizer + kernel vs the real parser, on streams restricted to the modelled commands
@@ -679,28 +801,35 @@ def gen_igs_model_cmd(rng):
         elif rng.random() < 0.04:      # a tall rectangle two pixels wide
             x0 = rng.choice([0, 318]); v = [str(x0), rng.choice(['0', '190']), str(x0 + 1), rng.choice(['199', '200', '99999'])]
         c = 'Z' + rng.choice(['', ' ']) + ','.join(v)
-    elif r < 0.34: c = 'C' + rng.choice(['', ' ']) + rng.choice(['0', '1', '1', '2', '2', '2', '3', '4', '99']) + ',' + rng.choice(['0', '1', '2', '3', '7', '15', '16', '255'])
-    elif r < 0.48: c = 'A ' + rng.choice(['0', '1', '2', '2', '3', '3', '4', '5']) + ',' + rng.choice(['0', '1', '5', '6', '7', '12', '13', '24', '25', '99']) + ',' + rng.choice(['0', '1', '1', '2'])
-    elif r < 0.44: c = rng.choice(['L ' + ','.join([sx(), sy(), sx(), sy()]), 'L ' + ','.join([sx(), sy(), sx(), sy()]), 'D ' + sx() + ',' + sy(), 'D ' + sx() + ',' + sy(),
-                                   'T 2,' + rng.choice(['1', '2', '3', '4', '5', '6', '6', '0', '8']) + ',' + rng.choice(['1', '3']), 'T 1,' + rng.choice(['1', '6', '7', '0']) + ',1', 'T 3,1,1',
-                                   'L ' + sx() + ',' + sy() + ',' + rng.choice(['400', '1000', '99999']) + ',' + sy(), 'L 0,' + sy() + ',0,' + rng.choice(['250', '1000'])])
-    elif r < 0.50: c = 's' + rng.choice(['', ' 0', ' 5', ' 1,2'])
-    elif r < 0.52: c = rng.choice(['H ' + rng.choice(['0', '1', '2']), 'M ' + rng.choice(['0', '1', '3', '4', '5']),
+    elif r < 0.32: c = 'C' + rng.choice(['', ' ']) + rng.choice(['0', '1', '1', '2', '2', '2', '3', '4', '99']) + ',' + rng.choice(['0', '1', '2', '3', '7', '15', '16', '255'])
+    elif r < 0.42: c = 'A ' + rng.choice(['0', '1', '2', '2', '3', '3', '4', '5']) + ',' + rng.choice(['0', '1', '5', '6', '7', '12', '13', '24', '25', '99']) + ',' + rng.choice(['0', '1', '1', '2'])
+    elif r < 0.53: c = rng.choice(['L ' + ','.join([sx(), sy(), sx(), sy()]), 'L ' + ','.join([sx(), sy(), sx(), sy()]), 'D ' + sx() + ',' + sy(), 'D ' + sx() + ',' + sy(),
+                                   'T 2,' + rng.choice(['1', '2', '3', '4', '5', '6', '6', '7', '7', '0', '8']) + ',' + rng.choice(['1', '3']), 'T 1,' + rng.choice(['1', '6', '7', '0']) + ',1', 'T 3,1,1',
+                                   'L ' + sx() + ',' + sy() + ',' + rng.choice(['400', '1000', '99999', '1000000000', '2147483647', '4000000000']) + ',' + sy(), 'L 0,' + sy() + ',0,' + rng.choice(['250', '1000', '2147483647']),
+                                   'L ' + rng.choice(['99999', '2147483647']) + ',' + rng.choice(['0', '99999', '2147483599']) + ',' + sx() + ',' + sy(), 'D ' + rng.choice(['99999,5', '5,99999', '2147483647,2147483647'])])
+    elif r < 0.56: c = 's' + rng.choice(['', ' 0', ' 5', ' 1,2'])
+    elif r < 0.59: c = rng.choice(['H ' + rng.choice(['0', '1', '2']), 'M ' + rng.choice(['0', '1', '3', '4', '5']),
                                    'S ' + rng.choice(['0', '1', '2', '15', '16']) + ',' + ','.join(rng.choice(['0', '3', '7', '8', '255', '256']) for _ in range(3))])
-    elif r < 0.57: c = 'R ' + rng.choice(['0', '0', '1', '2', '3']) + ',' + rng.choice(['0', '1', '2', '3'])
-    elif r < 0.72:
+    elif r < 0.63: c = 'R ' + rng.choice(['0', '0', '1', '2', '3']) + ',' + rng.choice(['0', '1', '2', '3'])
+    elif r < 0.74:
         # a letter with the wrong number of parameters: an error before anything happens
         l = rng.choice(sorted(IGS_ARITY_HINT)); n = IGS_ARITY_HINT[l]
         k = rng.choice([x for x in range(0, 8) if x != n])
         c = l + ','.join(str(rng.choice([0, 1, 5, 50, 320])) for _ in range(k))
-    elif r < 0.78: return 'W ' + rng.choice(['1,2,abc', '10,10,Hello World', '1,2,', '1,2,a:b,c@d'][:3]) + '\nG#'
-    elif r < 0.94:
-        cmd = rng.choice('ZZZCCAs')
+    elif r < 0.79: return 'W ' + rng.choice(['1,2,abc', '10,10,Hello World', '1,2,', '1,2,a:b,c@d'][:3]) + '\nG#'
+    elif r < 0.95:
+        cmd = rng.choice('ZZZCCAsLLD')
         frm, to = rng.choice([(0, 3), (0, 6), (5, 0), (0, 0), (2, 9), (3, 4), (7, 2), (0, 12)])
-        step = rng.choice([1, 1, 1, 2, 3, 5])
-        if cmd == 'Z': par = [rng.choice(['x', 'y', '0', '5', '+2', '-3', '!7', '12', 'q', '', '+x', '-y', '007']) for _ in range(4)]
-        elif cmd == 'C': par = [rng.choice(['2', '0', '1', 'x']), rng.choice(['x', 'y', '3', '+1', '-15', '!16'])]
+        step = rng.choice([1, 1, 1, 2, 3, 5, 0, 2147483647, 99])
+        if cmd in 'CLD' and rng.random() < 0.25:      # long counters only for commands whose cost in Coq does not grow with x / y
+            frm, to, step = rng.choice([(100, 200, 30), (100, 200, 99), (200, 100, 30), (200, 100, 2147483647), (0, 2147483599, 2147483647), (0, 2147483599, 500000000), (0, 2147483599, 2147483599),
+                                        (2147483599, 2147483000, 99), (2147483599, 0, 1000000000), (2147483599, 2147483000, 2147483647)])      # at most 7 steps each
+        big = ['+2147483647', '--2147483648', '!-2147483648', '+-2147483648', '-2147483647', '!2147483647']
+        if cmd == 'Z': par = [rng.choice(['x', 'y', '0', '5', '+2', '-3', '!7', '12', 'q', '', '+x', '-y', '007']) for _ in range(4)]      # no huge rectangles: every pixel is a pass over the canvas list in Coq
+        elif cmd == 'C': par = [rng.choice(['2', '0', '1', 'x']), rng.choice(['x', 'y', '3', '+1', '-15', '!16'] + big[:1])]
         elif cmd == 'A': par = [rng.choice(['2', '3', 'x']), rng.choice(['x', 'y', '+1', '5']), rng.choice(['0', '1', 'x'])]
+        elif cmd == 'L': par = [rng.choice(['x', 'y', '0', '5', '+2', '-3', '!7', '12', '40'] + big) for _ in range(4)]
+        elif cmd == 'D': par = [rng.choice(['x', 'y', '3', '+9', '-30'] + big) for _ in range(2)]
         else: par = []
         groups = rng.choice([1, 1, 1, 2])
         npar = len(par) * groups
@@ -723,7 +852,10 @@ def gen_igs_model_stream(rng):
     if rng.random() < 0.1: s += rng.choice(['G', 'G#', 'text', 'G#Z 1,2'])
     return s
 
-DIRECTED_I = ['G#C 1,3:L 0,0,4,2:', 'G#C 1,2:L 5,5,40,9:D 3,12:D 60,0:', 'G#T 2,3,1:C 1,5:L 0,0,60,12:', 'G#T 2,6,1:C 1,5:L 0,12,60,0:D 0,0:', 'G#T 2,7,1:L 0,0,5,5:', 'G#T 2,8,1:T 1,7,1:T 3,1,1:T 1,2,5:L 1,1,9,9:',
+DIRECTED_I = ['G#L 0,0,1000000000,0:', 'G#C 1,2:T 2,7,1:L 0,0,50,12:D 60,0:', 'G#L 2147483647,2147483648,99999999999,1:', 'G#&0,1,1,0,L,4,+-2147483648,+-2147483648,+2147483647,+2147483647:',
+              'G#&0,1,1,0,L,4,+-10,+-10,+700,+500:', 'G#&0,1,1,0,L,4,+-5,+3,+1000000000,+4:C 1,3:D 5,5:', 'G#&0,3,0,0,L,4,0,0,1,1:C 1,2:L 0,0,5,5:', 'G#&100,200,2147483647,0,L,4,0,0,x,1:', 'G#&1,3,1,0,L,4,+2147483647,0,0,0:',
+              'G#&1,3,1,0,L,4,--2147483648,0,0,0:', 'G#&1,3,1,0,L,4,!-2147483648,0,0,0:', 'G#&200,100,99,0,D,2,x,y:', 'G#&5,0,0,0,C,2,2,3:', 'G#R 1,0:L 0,0,99999,150:L 639,0,0,199:', 'G#L 319,0,319,99999:L 320,0,320,50:',
+              'G#C 1,3:L 0,0,4,2:', 'G#C 1,2:L 5,5,40,9:D 3,12:D 60,0:', 'G#T 2,3,1:C 1,5:L 0,0,60,12:', 'G#T 2,6,1:C 1,5:L 0,12,60,0:D 0,0:', 'G#T 2,7,1:L 0,0,5,5:', 'G#T 2,8,1:T 1,7,1:T 3,1,1:T 1,2,5:L 1,1,9,9:',
               'G#L 0,0,99999,5:', 'G#L 99999,99999,0,0:', 'G#L 0,0,0,0:', 'G#D 5,5:D 5,5:', 'G#L 1,2,3:', 'G#&0,4,1,0,L,4,0,x,20,y:', 'G#C 1,4:&0,5,1,0,D,2,+3,x:', 'G#L 2147483647,0,0,0:', 'G#L 0,0,200000,1:T 2,2,1:',
               'G#S 2,7,0,3:C 2,2:Z 0,0,10,5:', 'G#S 1,7,7,7:', 'G#S 16,1,1,1:', 'G#S 0,255,256,8:Z 0,0,3,3:', 'G#H 1:H 2:M 3:M 0:M 5:', 'G#C 2,3:Z 0,0,10,5:', 'G#&0,3,1,0,Z,4,x,0,x,5:', 'G#R 1,2:A 2,5,1:Z 3,3,40,9:', 'G#Z 0,0,99999,3:', 'G#Z 99999,99999,318,198:', 'G#Z 4000000000,0,5,5:', 'G#A 3,9,1:C 2,5:Z 1,1,33,9:',
               'G#A 2,0,0:C 2,15:Z 0,0,47,12:', 'G#A 2,25,1:Z 0,0,5,5:', 'G#A 3,13,2:Z 0,0,5,5:', 'G#A 5,1,1:', 'G#C 2,16:Z 0,0,5,5:', 'G#C 4,1:', 'G#C 2:', 'G#s:Z 0,0,3,3:', 'G#R 1,0:Z 600,0,700,3:', 'G#R 0,3:', 'G#R 2,0:',
@@ -851,13 +983,15 @@ LEVEL_TEXT = ('PARTIAL by design. Machine-checked proof (Coq, closed under the g
               '(TextWindow, ViewPort, ResetWindows, EraseWindow, EraseView, GotoXY, Color, SetPalette, OnePalette, WriteMode, Move, Pixel, Bar, FillStyle, FillPattern, Line, Rectangle, Polygon, PolyLine, LineStyle + 12 no-op commands) '
               'with ANY parameters in 0..=65535 on any state satisfying the invariant returns normally and keeps the canvas at width x height bytes; Bgi::line is proved over an abstract canvas: every pixel is plotted through the checked '
               'put_pixel AFTER clipping to the viewport and at most (3(|dx|+|dy|)+8)*thickness pixels are plotted; lifted by induction to every command sequence and to every character stream of the whole parser, for every behaviour '
-              'of the wrapped ansi parser; (c) character-level model of the IGS tokenizer (states, saturating decimal accumulation, & loops with their header, `:` chaining, `@` text, line continuation, Loop::next_step) with command execution '
-              'and the fallback parser as parameters; theorem igs_tokenizer_safe / igs_stream_safe: for every executor, every interleaving of characters and get_next_action calls, parsed_numbers[0..=4], the loop_parameters unwraps, '
-              '`% len`, the parameter index never fail and the loop delay sleep never sleeps; the ONLY panic class is the i32 arithmetic of Loop::next_step (known finding, witness theorems; proved absent for headers / values up to 10^9); '
-              'loops with step >= 1 end after at most |to-from| steps, step 0 never ends (known finding); (d) IGS set_pixel / get_pixel / fill_pixel / fill_rect and the executor arms ColorSet, FilledRectangle, AttributeForFills, '
-              'ScreenClear, SetResolution, HollowSet, DrawingMode, SetPenColor are safe for ALL parameter values, fill_rect does at most width x height pixel calls, get_picture_data indexes the pen table in range; igs_stream_kernel_safe joins (c) and (d); (e) IGS draw_line (DrawLine, LineDrawTo, LineMarkerTypes) is an unclipped Bresenham: for ALL arguments it ends at the end point after at least max(|dx|,|dy|)+1 iterations — work proportional to the coordinates, the known stall igs-timeout:L — and panics only in the two known ways (LINE_STYLE[6], i32 overflow beyond +-2^27). '
-              'NOT proved: ovals, arcs, bezier, filled polygons, flood fill, fonts, buttons, icons, images and the other IGS drawing commands — covered only by the search stage, which runs the complete RIP and IGS command tables '
-              '(every letter x parameter lengths 0..=24 over {0,1,Z}; 0..=12 IGS values) and random sequences against the real code under 5 s / 1 GiB limits; 17 defects found this way are fixed by fix: commits, 10 failure classes remain as known findings.')
+              'of the wrapped ansi parser; (c) character-level model of the IGS tokenizer (states, saturating decimal accumulation, & loops with their header, `:` chaining, `@` text, line continuation, Loop::new, Loop::next_step) with command execution '
+              'and the fallback parser as parameters; theorem igs_tokenizer_safe / igs_stream_safe: for every executor, every interleaving of characters and get_next_action calls, NO panic site is reached (parsed_numbers[0..=4], the loop_parameters unwraps, '
+              '`% len`, the parameter index, the delay sleep, and — since the fix commits: step <= 0 rejected, saturating counter and parameter arithmetic — the i32 arithmetic of Loop::next_step); every loop the parser runs moves its counter towards `to` in every step '
+              'and ends after at most |to-from| steps (igs_loop_progress, igs_loop_terminates); (d) IGS set_pixel / get_pixel / fill_pixel / fill_rect and the executor arms ColorSet, FilledRectangle, AttributeForFills, '
+              'ScreenClear, SetResolution, HollowSet, DrawingMode, SetPenColor are safe for ALL parameter values, fill_rect does at most width x height pixel calls, get_picture_data indexes the pen table in range; '
+              '(e) IGS draw_line (DrawLine, LineDrawTo, LineMarkerTypes) with its clip to the screen (clip_line / cut in i128: no overflow, no division by zero, end points on the screen): for ALL i32 arguments and every line type it returns after at most width + height - 1 loop iterations — work bounded by the canvas; '
+              'igs_stream_kernel2_safe joins (c), (d), (e): the whole IGS parser over these executor arms has no panic outcome; the behaviour before the fixes (endless step-0 loop, overflowing loop arithmetic, unclipped line loop, LINE_STYLE[6]) is kept as statements about the old expressions. '
+              'NOT proved: ovals, arcs, bezier, filled polygons, flood fill, fonts, buttons, icons, images and the other IGS drawing commands, and that the clipped line is the visible part of the line — covered only by the search stage, which runs the complete RIP and IGS command tables '
+              '(every letter x parameter lengths 0..=24 over {0,1,Z}; 0..=12 IGS values), the repaired IGS primitives with parameters from the whole i32 range, an independent rational-arithmetic line clipper and random sequences against the real code under 5 s / 1 GiB limits; 27 defects found this way are fixed by fix: commits, 1 failure class (a todo!() feature) remains a known finding.')
 LEVEL_NOTE = ('Trusted: Coq kernel + vm_compute; the python translator (tables, constants, token pins); hand-written tokenizer / kernel models tied by differential runs (state and canvas hashes); '
               'the harness and worker limits. Assumes streams shorter than 2^31 characters (parameter_state overflow witness is a theorem) and fewer than 2^31 IGS loop parameters. No axioms.')
 TECHNIQUE = 'Coq proof: invariants by induction over character streams, event sequences and command sequences, an abstract-canvas (parametric) proof of the run-slice line with a cost measure, complete vm_compute sweeps of the regenerated command tables; exhaustive + random search of the full command tables in sandboxed workers'
